@@ -66,7 +66,7 @@ CHECKS = {
              'GeoPolygon.__init__ by correspondence on dyadic inputs where float and rational arithmetic agree; CPython set/sorted '
              'semantics trusted (set iteration order proved irrelevant). Outside the claim: float rounding on near-collinear non-dyadic '
              'inputs, Z-only differences, wrapper inputs spanning more than 180 degrees of longitude, generated outlines of curved members.',
-        technique='Lean 4 proof (stack invariant, reflection, junction lemmas, shoelace telescoping, gift-wrapping uniqueness) + exhaustive/random differential correspondence through convex_hull and all five wrappers + independent exact oracle',
+        technique='Lean 4 proof (stack invariant, reflection, junction lemmas, shoelace telescoping, gift-wrapping uniqueness) + source translator (convex_hull with its nested while loops, the cross product, the polygon constructor and the multi-shape wrappers regenerated as Lean and proved equal to the model) + exhaustive/random differential correspondence through convex_hull and all five wrappers + independent exact oracle',
         design='§6 C10'),
     'C14': dict(
         text='Lean 4 theorems over a hand-written model of to_geojson / from_geojson / parse_geojson / collection import-export, for every '
@@ -106,7 +106,7 @@ CHECKS = {
         note='Per-shape predicates, bounds, vertices and == classes are taken as measured (they are the business of C01-C05, C09, C15). The '
              'hull contains member vertices claim is C10 theorem, additionally checked end-to-end here with exact arithmetic. Purity is '
              'structural in the model and tested on the implementation.',
-        technique='Lean 4 proof (model = List.filter spec; order-theoretic characterisation of bounds) + source translator (collection filters and intersects regenerated as Lean and proved equal to the model) + random/exhaustive differential correspondence + independent list-comprehension spec',
+        technique='Lean 4 proof (model = List.filter spec; order-theoretic characterisation of bounds) + source translator (collection filters, intersects and the list protocol regenerated as Lean and proved equal to the model) + random/exhaustive differential correspondence + independent list-comprehension spec',
         design='§6 C18'),
     'C20': dict(
         text='PARTIAL claim. Lean 4 theorems about this repository own logic on our side of the three library boundaries (pyshp, '
@@ -152,7 +152,7 @@ CHECKS = {
         note='Welzl lemma on the sphere, minimality and seed-independence are validated numerically (brute-force 2-/3-point search, all seeds 0..63 / '
              '0..1023, random draws recorded and replayed through the model); the 1 % clause against a dense-sampling oracle. Known findings: '
              'GeoBox circle (F09a), wedge bounds across the antimeridian (F09c).',
-        technique='Lean 4 proof (exact rational bounds; real circles; induction over the Welzl recursion with an explicit choice sequence) + exact/float differential correspondence + independent oracles',
+        technique='Lean 4 proof (exact rational bounds; real circles; induction over the Welzl recursion with an explicit choice sequence) + source translator (the bounds and circumscribing_rectangle methods of vertex-defined shapes, multi-shapes and collections regenerated as Lean and proved equal to the model) + exact/float differential correspondence + independent oracles',
         design='§6 C09'),
     'C11': dict(
         text='Lean 4 theorems over a model of _decode_niemeyer / _coord_to_niemeyer / _get_niemeyer_subhashes / niemeyer_to_geobox / _get_surrounding: '
@@ -164,17 +164,20 @@ CHECKS = {
         note='Trusted: Lean kernel + Mathlib, the hand-written model tied to geohash.py by exhaustive correspondence to depth 3/2(3)/2 and ~1e5 (1e6 '
              'thorough) random lines; Coordinate normalisation is the C08 model; float arithmetic is modelled by exact rationals (justified by '
              'float_exact_bound).',
-        technique='Lean 4 proof (codec laws over generated tables) + translator for the tables + exhaustive/random differential correspondence + closed-form Fraction oracle',
+        technique='Lean 4 proof (codec laws over generated tables) + translator for the tables + source translator (the Niemeyer encoder, decoder, sub-hashes, cell box and neighbours regenerated as Lean from the current text and proved equal to the model) + exhaustive/random differential correspondence + closed-form Fraction oracle',
         design='§6 C11'),
     'C12': dict(
         text='Lean 4 theorems over the work-list loop with an arbitrary pop schedule: result = reachable set (order independent), sound, complete for '
              'neighbour-connected touched sets, closed, terminating on every finite grid (instantiated for the geohash grid); multi = union; '
+             'on the integer lattice of a rational grid the connectivity and finiteness hypotheses are proved for axis-parallel rectangles, '
+             'segments of any slope and polylines, giving the unconditional statement flood = exactly the cells whose closed box meets the shape '
+             '(Props/C12Lattice: rect_flood_exact, seg_flood_exact, polyline_flood_exact); '
              'hash_collection = aggregation of exactly the shapes containing each cell, in order. Tied to NiemeyerHasher by measuring touches / '
              '_get_surrounding per shape, flooding them in the model and comparing with hash_shape; an exact integer-grid oracle independently '
              'checks that the cells are exactly those the shape touches.',
-        note='Not proved: connectedness of touched cells (geometry) and the per-cell predicate (C02); curved shapes are claimed for their polygon form, '
+        note='Not proved: connectedness of the cells touched by a filled polygon (proved for rectangles, segments and polylines only) and the per-cell predicate (C02); curved shapes are claimed for their polygon form, '
              'the analytic sliver is known finding F12b; H3 clauses are glue checks against the h3 library (np- streams).',
-        technique='Lean 4 proof (invariant/refinement of the flood fill, termination measure, dict semantics) + measured-table correspondence + exact geometric oracle',
+        technique='Lean 4 proof (invariant/refinement of the flood fill, termination measure, dict semantics) + source translator (the work-list loops of NiemeyerHasher, hash_shape, hash_coordinates and hash_collection regenerated as Lean and proved equal to the model) + measured-table correspondence + exact geometric oracle',
         design='§6 C12'),
     'C15': dict(
         text='Lean 4 theorems over an executable model of every __eq__/__hash__ (rotation loop, hole edge sets, set-based multi equality computed '
@@ -198,7 +201,7 @@ CHECKS = {
         note='The theorems hold for every memoisation table; the driver table is tied for argument-free reads. Derived observations are compared with '
              'a fresh twin and raw-vertex bounds, not recomputed; volume is recomputed bit-exactly. Direct hole/vertex-list manipulation is '
              'outside the histories.',
-        technique='Lean 4 proof (invariant by induction over histories, refinement to field values) + differential correspondence over operation histories with a watchdog',
+        technique='Lean 4 proof (invariant by induction over histories, refinement to field values) + source translator (set_dt, buffer_dt, strip_dt, set_property and the observations they feed regenerated as Lean over a heap of object records and proved equal to the model step) + differential correspondence over operation histories with a watchdog',
         design='§6 C16'),
     'C08': dict(
         text='Lean 4 theorems over exact rationals for all inputs (no magnitude bound): both constructor loops terminate within their computed '
@@ -220,7 +223,7 @@ CHECKS = {
              'against the real libraries only (F19b known).',
         note='round_half_up is modelled as exact round-half-up (the float nudge is not modelled); repr/float/format are CPython runtime; mgrs and '
              'pyproj are trusted references for the np- streams.',
-        technique='Lean 4 proof (rounding and divmod arithmetic, decimal-string lemmas) + differential correspondence on exact strings + library-backed round-trip tests',
+        technique='Lean 4 proof (rounding and divmod arithmetic, decimal-string lemmas) + source translator (to_dms, from_dms, to_qdms, from_qdms and their local functions regenerated as Lean and proved equal to the model) + differential correspondence on exact strings + library-backed round-trip tests',
         design='§6 C19'),
     'C13': dict(
         text='Lean 4 theorems over a hand-written model of the WKT writers and readers: for every well-formed shape (all six kinds, any number '
